@@ -53,8 +53,16 @@ const C13_RULE: &str = "Scenario seeds are SplitMix64(VERIF_SEED, property, k); 
 const C06_RULE: &str = "Scenario seeds are SplitMix64(VERIF_SEED, property, k); each expands into a cluster of 4..7 nodes (equal and unequal stakes, optional per-node timeout skew 0.7-1.5x) in which authorities within the stake budget f crash at arbitrary instants (at boot, before, at, after stabilisation), messages suffer heavy-tail delays and finite stalls before a seeded stabilisation instant (nothing is lost between live nodes, all boot together), and afterwards every message takes less than a twelfth of the smallest round timeout.";
 const C07_RULE: &str = "Scenario seeds are SplitMix64(VERIF_SEED, property, k); each expands into a cluster of 4..7 nodes where one seeded node is cut off (all its connections reset and refused) for a seeded interval while the others keep committing, with or without slow-leader view changes inside the gap; after the heal one peer's consensus port may stay mute towards it, and the wall clock may jump.";
 
+const PUPPET_RULE: &str = "Scenario seeds are SplitMix64(VERIF_SEED, property, k); each expands into a puppet scenario (world W2): ONE real node booted through Node::new, committee of 4..7 with equal or unequal stakes, all other authorities played by the harness which holds their keys. A seeded policy delivers one action per quiescence step (valid proposals for the node's round with or without TC, equivocating siblings, stale proposals, proposals with missing payloads, votes / timeouts trickled to the node one per step when it is the collector, TCs, timer expiries, replays, sync probes) and, with a per-run probability, one of 28 kinds of invalid variant (flipped signature bits, altered signed fields with the signature kept, transplanted signatures across blocks and message kinds, certificates with repeated / non-member signers, below quorum, over another round, for future rounds).";
+
 pub fn specs() -> Vec<PropSpec> {
     vec![
+        spec("C04", |s, t| crate::gen::puppet("C04", s, t), PUPPET_RULE, |r| p(r, "puppet.invalid-injected") > 0 && p(r, "puppet.vote-as-expected") > 0,
+            "at least one invalid variant was injected and the node voted for a valid proposal as the model expected (so rejection and normal operation were both exercised)",
+            &["puppet.invalid-injected", "puppet.vote-as-expected", "puppet.node-proposed", "C19.tc-broadcast"], 400, 20000),
+        spec("C20", |s, t| crate::gen::puppet("C20", s, t), PUPPET_RULE, |r| p(r, "puppet.invalid-injected") > 0 && p(r, "puppet.sync-probe-answered") > 0,
+            "a field-altering or signature-transplanting variant was injected and the node's helper answered a sync probe from its store",
+            &["puppet.invalid-injected", "puppet.sync-probe-answered", "puppet.vote-as-expected"], 400, 20000),
         PropSpec {
             id: "C01",
             level: "exploration",
